@@ -32,6 +32,7 @@ RULE = ('generic: every DAG shape with <= N cells (arity <= 2, plus 3- and 4-ary
         'kept or pruned in the proof; every account in turn proven with everything else pruned: check_account_proof accepts and returns that account\'s descriptor. Soundness: all '
         'single mutations listed in the module docstring must raise. non-trivial = proof with at least one pruned branch; states = distinct proofs / mutants; transitions = check calls; '
         'traces = verdicts compared with the reference (accept for constructed proofs, reject for every mutant)')
+RULE += ' Fifth session: the Merkle proof ROOT cell: stored depth bits, appended / removed data bit, duplicated / foreign second / dropped reference (handed to the library raw); every inner fault in two variants - Merkle cells above it keep their stored hashes (an invalid cell) or are re-made over the new children (a valid proof of another tree); a pruned branch claimed one level higher with an uncommitted extra hash.'
 LEVEL_TEXT = ('Bounded-exhaustive in both directions: every small tree with every prune set (nested Merkle levels included) must verify, and every single-fault mutant of every such '
               'proof - in data, structure, committed hashes, root type, expected hash, claimed account state, address, block id and root list - must be refused.')
 LEVEL_NOTE = 'trusted: mc/ref/cell.py (prune / mproof / mupdate constructors and level-aware hashes, validated by C02), mc/ref/boc.py, mc/ref/hashmap.py, mc/ref/bits.py'
